@@ -81,7 +81,7 @@ def run(ctx):
         if arm not in seen_arm and len(sk.calls_to(r"i64::saturating_add$")) >= 2:
             res.violation("R14.1", "seek-base|" + arm, sk.where(), "no SeekFrom::%s(pos) -> base + pos computation found in seek" % arm)
     wr = [(i, s_) for i, s_ in writes_field(sk, "cursor")]
-    res.check(len(wr) == 1 and wr[0][1]["rv"]["k"] == "use" and re.fullmatch(r"min\(pos,len\(self\.items\)\)", expr(sk, wr[0][1]["rv"]["op"])) is not None, "R14.1", "seek-clamped-store", sk.where(),
+    res.check(len(wr) == 1 and wr[0][1]["rv"]["k"] == "use" and re.fullmatch(r"min\((\w+,len\(self\.items\)|len\(self\.items\),\w+)\)", expr(sk, wr[0][1]["rv"]["op"])) is not None, "R14.1", "seek-clamped-store", sk.where(),
               "cursor := min(pos, items.len())", "seek stores %s" % [expr(sk, s_["rv"]["op"]) if s_["rv"]["k"] == "use" else s_["rv"]["k"] for i, s_ in wr])
     # peek / is_end / next_os read the element AT the cursor through the checked accessor
     for fn_ in ("peek_os", "next_os"):
